@@ -398,8 +398,10 @@ def matrix_block(marker, mfields, lines, tri, typ):
 FOREIGN = ["SOLUTION/FOO", "X/BLOCK", "SITE/UNKNOWN", "BIAS/DESCRIPTION"]
 
 
-def assemble(rng, header_line, blocks, foreign=True):
-    """file text with the blocks in random order, foreign blocks and comment lines in between"""
+def assemble(rng, header_line, blocks, foreign=True, ctx=None):
+    """file text with the blocks in random order, foreign blocks and comment lines in between; now and then one
+    of the blocks is given a second time further down with other records (only the first one is read:
+    theorem file_invisible)"""
     order = list(blocks)
     rng.shuffle(order)
     out = [header_line]
@@ -410,6 +412,12 @@ def assemble(rng, header_line, blocks, foreign=True):
         if foreign and rng.random() < 0.3:
             out.append("* ---------------------------------------------------------------")
         out += b.lines(rng, comments=foreign)
+    if foreign and order and rng.random() < 0.08:
+        b = rng.choice(order)
+        if b.marker not in MATRIX_MARKERS:
+            out += GenBlock(b.marker, b.fields, gen_rows(rng, b.fields, rng.randint(1, 2))).lines(rng, comments=False)
+            if ctx is not None:
+                ctx.count("block-given-twice")
     out.append("%ENDSNX")
     return "\n".join(out) + "\n"
 
@@ -561,7 +569,7 @@ def base_case(ctx, impl, drv, spec, rng, quick):
             b = GenBlock(m, fields, gen_rows(rng, fields, nrows, seq=True))
         blocks.append(b)
     hline, hexp = gen_header(rng, spec["header"])
-    text = assemble(rng, hline, blocks)
+    text = assemble(rng, hline, blocks, ctx=ctx)
     case = {"parser": "base", "declares": [impl.base_markers[i] for i in sel], "file": text}
     ctx.case({"k": "base", "sel": sel, "text": common.digest(text)}, nontrivial=any(b.rows for b in blocks))
     for b in blocks:
@@ -678,7 +686,7 @@ def site_case(ctx, impl, drv, spec, rng, quick, kind):
             nrows = rng.choice([0, 1, 1, 2]) if rng.random() < 0.3 else rng.randint(0, maxrows)
             blocks.append(GenBlock(m, fields, gen_rows(rng, fields, nrows, sites=sites, seq=True)))
     hline, hexp = gen_header(rng, spec["header"])
-    text = assemble(rng, hline, blocks)
+    text = assemble(rng, hline, blocks, ctx=ctx)
     case = {"parser": kind, "file": text}
     ctx.case({"k": kind, "text": common.digest(text)}, nontrivial=any(b.rows for b in blocks))
     for b in blocks:
@@ -771,7 +779,7 @@ def tro_case(ctx, impl, drv, spec, rng, quick):
             n = rng.choice([0, 1, 2]) if rng.random() < 0.3 else rng.randint(0, 10 if quick else 40)
             blocks.append(GenBlock(m, fields, gen_rows(rng, fields, n, sites=sites, seq=True)))
     hline, hexp = gen_header(rng, spec["header"])
-    text = assemble(rng, hline, blocks)
+    text = assemble(rng, hline, blocks, ctx=ctx)
     case = {"parser": "tro", "file": text}
     ctx.case({"k": "tro", "text": common.digest(text)}, nontrivial=any(b.rows for b in blocks))
     st, p = impl.parse(impl.classes["tro"], text)
@@ -892,14 +900,23 @@ def run(ctx: Ctx):
                 "epochs 1951-2050 incl. 00:000:00000, dms incl. -0), 0..40 rows per block, blocks shuffled with "
                 "foreign blocks and * comments interleaved, matrices n=1..12 L/U with 1-3 values per line and "
                 "omitted zeros, with and without the size block declared; base-class parsers over random "
-                "selections of all official blocks, plus the site / discontinuities / events / tro parsers; "
+                "selections of all official blocks, plus the site / discontinuities / events / tro parsers, now and then a "
+                "block given twice; SINEX-TMS files (header, FILE/REFERENCE, four site blocks, REF_COORDINATE, COLUMNS, DATA in "
+                "whitespace mode with 0..60 records of 1..14 tokens, lines with and without trailing blanks, ragged and "
+                "single-column data, invalid first line) for SinexTmsParser; targeted np.genfromtxt probes (fixed-width cutting "
+                "on random start tables with short/long/whitespace/#/blank-only lines, dtype and converter conversions of edge "
+                "texts, whitespace mode) against the real function with the kwargs of the real parse_lines; "
                 "a case is non-trivial when some block has rows; distinct by file text")
-    ctx.trusted += ["np.genfromtxt fixed-width splitting / autostrip / loose converter calls are modelled, not verified",
+    ctx.trusted += ["np.genfromtxt fixed-width splitting / autostrip / loose converter calls are modelled, not verified; the assumed "
+                    "behaviours G1..G12, W1..W4 (extra.genfromtxt_assumptions) are each probed against the real function in every run",
                     "Spec/Sinex202.lean columns typed from the SINEX 2.02 document",
                     "float(text) is compared with the correctly rounded double of the model's exact rational"]
     ctx.assumptions += ["ASCII text",
                         "SITE/GAL_PHASE_CENTER (empty field table, TODO in the source) is not exercised",
-                        "sinex_tms: tables regenerated and checked by the table theorems; its file level is not modelled"]
+                        "sinex_tms: lines are LF-terminated; TIMESERIES/DATA tokens are decimal numbers or text that no numeral "
+                        "matches (inf/nan/underscore/hex numerals and numeric tokens in a text column are outside the model)",
+                        "SINEX-TMS has no published standard: the writer's columns are typed from the example records in the doc "
+                        "strings of sinex_tms.py"]
     try:
         corpus = sorted((common.VERIF / "corpus" / "C14").glob("*.json"))
         for f in corpus:
@@ -931,6 +948,11 @@ def replay_case(ctx, impl, drv, payload):
         sel = [impl.base_markers.index(m) for m in c["declares"]]
         st, p = impl.parse(impl.make_base(sel), c["file"])
         model = ask_model(drv, "base", c["file"], sel)
+    elif kind == "tms":
+        from midgard.parsers.sinex_tms import SinexTmsParser
+
+        st, p = impl.parse(SinexTmsParser, c["file"])
+        model = ask_model(drv, "tms", c["file"])
     else:
         st, p = impl.parse(impl.classes[kind], c["file"])
         model = ask_model(drv, kind, c["file"])
@@ -939,7 +961,15 @@ def replay_case(ctx, impl, drv, payload):
     if st == "raises":
         ctx.violate(f"{kind}:raises:{p.split(':')[0]}:corpus", f"corpus file makes the parser raise {p}", c)
         return
-    d = tree_diff(model, impl_tree(p, sort_top=(kind == "tro"))) if model not in ("RAISES", "bad-op") else "model raises"
+    it = c14_tms.tms_tree(sys.modules[__name__], p) if kind == "tms" else impl_tree(p, sort_top=(kind == "tro"))
+    d = tree_diff(model, it) if model not in ("RAISES", "bad-op") else "model raises"
+    for key, want in (c.get("expect") or {}).items():  # value-level expectations recorded with the corpus file
+        got = p.data
+        for part in key.split("/"):
+            got = got[part] if isinstance(got, dict) else got[int(part)]
+        got = [x.item() if hasattr(x, "item") else x for x in got] if hasattr(got, "__len__") and not isinstance(got, str) else got
+        if got != want:
+            ctx.violate(f"{kind}:corpus:{key}", f"corpus file: {key} is {got!r}, the file says {want!r}", c)
     if d:
         ctx.disagree(f"{kind} file (corpus)", c, d, "")
 
